@@ -73,3 +73,27 @@ type Program struct {
 	Value Expr
 	Root  Outer
 }
+
+// Rule has no leaf: every member holds it, directly or through a slice; the
+// slices end the recursion.
+type Rule interface {
+	isRule()
+}
+
+type RuleList []Rule
+
+type All struct {
+	Rules RuleList
+}
+
+type Any struct {
+	Rules RuleList
+}
+
+type Neg struct {
+	R Rule
+}
+
+func (All) isRule() {}
+func (Any) isRule() {}
+func (Neg) isRule() {}
